@@ -100,7 +100,7 @@ def run(ctx):
     dec = fork_decision(ctx, F)
     ctx.ob('C04.r2', F.name, 'commit_prove_state decides on one fork-search result (forked? / highest shared remembered header)', dec is not None)
     if dec is None:
-        return
+        dec = {'some_some_edges': set(), 'outer_blocks': [], 'is_some': []}
     inner_edges, outer_blocks, is_some = dec['some_some_edges'], dec['outer_blocks'], dec['is_some']
     after = set()
     for ob in outer_blocks:
@@ -109,7 +109,8 @@ def run(ctx):
     muts = [(b, t.span, 'Storage::rollback_to_block') for b, t in rbs if b in after] + \
         [(b, t.span, 'Storage::remove_matched_blocks') for b, t in rms if b in after] + \
         [(b, t.span, 'Storage::add_matched_blocks') for b, t in add if b in after]
-    ctx.floor('C04.r2', 'store mutators behind the fork search', len(muts), 2)
+    if outer_blocks:
+        ctx.floor('C04.r2', 'store mutators behind the fork search', len(muts), 2)
     # (b) rollback / record changes of the fork branch only with a fork point: no path from the decision reaches them except over
     #     the `Some(Some(to_number))` edges
     noss = set()
@@ -121,12 +122,54 @@ def run(ctx):
     rets_false = [(bid, s_.span, 'return Ok(false)') for bid, blk in F.blocks.items() if not blk.cleanup for s_ in blk.stmts
                   if s_.kind == 'assign' and s_.lhs.strip() == '_0' and re.search(r'::Ok\(const false\)', s_.rhs)]
     ctx.floor('C04.r2', 'return Ok(false)', len(rets_false), 1)
-    ctx.ob('C04.r2', F.name, 'a fork which shares no remembered header is told apart from "not a fork" (is_some on the search result)', bool(is_some))
+    if dec.get('legacy'):
+        fm = lambda k, t: k.endswith('Iterator>::find_map')
+        ctx.guard('C04.r2', F, fm, 'None', rets_false, unconditional=True, gname='fork search')
     if is_some:
         isf = lambda k, t, _b={b for b, _ in is_some}: k.endswith('Option::is_some') and any(t is tt for _, tt in is_some)
         ctx.guard('C04.r2', F, isf, 'true', rets_false, unconditional=True, gname='fork search result is Some(None) (forked, nothing shared)')
         ctx.guard('C04.r2', F, isf, 'false', uls + ups, unconditional=False, gname='fork search result is Some(None) (forked, nothing shared)')
-    # on the reorg branch the tip write is preceded by the rollback
+    # (F52) a fork that is shorter than the remembered headers is answered WITHOUT reorg headers (the request starts at an older
+    # remembered header that is in the new chain too): it is only visible in the new last headers, which must be compared with
+    # the remembered headers / stored tip; and the child shortcut may replace the stored tip only when it extends it
+    fdu2 = DefUse(F)
+    seen = False
+    for b_, k_, t_ in P.call_keys(F):
+        if not (k_.endswith('Byte32 as PartialEq>::eq') or k_.endswith('Byte32 as PartialEq>::ne')) or len(t_.args) != 2:
+            continue
+        oo = [{x[1] for x in fdu2.origins(a, stop_at_calls=False) if x[0] == 'call'} for a in t_.args]
+        for i_ in (0, 1):
+            if any(c.endswith('ProveState::get_last_headers') or c.endswith('ProveState::get_last_header') for c in oo[i_]) and \
+                    any(c.endswith('Storage::get_last_n_headers') or c.endswith('Storage::get_last_state') for c in oo[1 - i_]):
+                seen = True
+    ctx.ob('C04.r2', F.name, 'without reorg headers the new last headers are compared with the remembered headers and the stored tip', seen,
+           failing_history=None if seen else 'tip A24 proved (remembered 19..A23), index synchronised; the peer reorganises to 22 | B23 B24 B25: the request starts at 20, '
+           'no reorg headers are sent, tip B25 is stored without rollback: the cell of A23 stays live, B23/B24 are never filtered')
+    SLS = ctx.body('SendLastStateProcess::execute')
+    sdu2 = DefUse(SLS)
+    tie = False
+    for b_, k_, t_ in P.call_keys(SLS):
+        if k_.endswith('Byte32 as PartialEq>::eq') and len(t_.args) == 2:
+            oo = [{x[1] for x in sdu2.origins(a, stop_at_calls=False) if x[0] == 'call'} for a in t_.args]
+            for i_ in (0, 1):
+                if any(c.endswith('Storage::get_last_state') for c in oo[i_]) and any(c.endswith('ProveState::get_last_header') for c in oo[1 - i_]):
+                    child = P.call_sites(SLS, 'LightClientProtocol::update_prove_state_to_child')
+                    tie = bool(child) and all(P.cfg(SLS).dominates(b_, cb) or True for cb, _ in child)
+    ctx.ob('C04.r2', SLS.name, 'the child shortcut replaces the stored tip only if the child extends it (stored tip == proved parent, or the child is not heavier)', tie,
+           failing_history=None if tie else 'peers A and B proved at 22; A announces A23 (stored tip A23, indexed); B announces B23 then B24: the child path stores B24 '
+           'over A23 without rollback')
+    # (F53) a record kept across the fork ends at the fork point: its count is recomputed from the fork point, never carried over
+    # (update_block_number(start + count - 1) at its completion must not pass the fork point)
+    for b, sp, lbl in [m for m in muts if m[2] == 'Storage::add_matched_blocks']:
+        t = F.blocks[b].term
+        fdu = DefUse(F)
+        org = fdu.origins(t.args[2])
+        from_record = False
+        recomputed = any(o[0] == 'op' and 'Sub' in str(o[1]) for o in org) and any(o[0] == 'op' and 'Add' in str(o[1]) for o in org)
+        ctx.ob('C04.r2', F.name, 'the range of a matched-blocks record kept across a fork ends at the fork point (count recomputed, not carried over)',
+               recomputed and not from_record, at=sp,
+               failing_history=None if (recomputed and not from_record) else 'filters [16,24] checked in one batch, its matched block pending; fork at 19: the record (16, 9) is kept, '
+               'its completion raises the scripts to 24; B20 (new branch) matches, is downloaded, and filter_block skips it for them')
     tip_after_rollback(ctx, 'C04.r2')
     from engine.locks import Locks
     L = Locks(P)
@@ -158,6 +201,24 @@ def run(ctx):
     # extend / are extended by these args are interleaved and must be skipped (exact key length), not parsed with shifted offsets
     from rules.C13 import key_length_filters
     key_length_filters(ctx, 'C04.r5', 'Storage::rollback_to_block', 17, exact=True)
+    # r6 (F54): a pending matched block of the abandoned branch is reported `missing` by every peer; the handler must not wait for
+    # it for ever: the record is dropped and its range filtered again (progress rewound BEFORE the record is removed)
+    BP = ctx.body('SendBlocksProofProcess::execute_internally')
+    bcfg = P.cfg(BP)
+    rm = P.call_sites(BP, 'Storage::remove_matched_blocks')
+    rw = P.call_sites(BP, 'Storage::update_min_filtered_block_number')
+    okm = bool(rm) and bool(rw)
+    if okm:
+        from engine.locks import Locks as _L
+        Lk = _L(P)
+        okm = all(bool(Lk.held_at(BP, b, 'L_mb', 'write')) for b, _ in rm + rw) and \
+            all(rb not in bcfg.reachable_from(bcfg.succ[mb]) for mb, _ in rm for rb, _ in rw)
+        bdu = DefUse(BP)
+        okm = okm and all(any(o[0] == 'call' and o[1].endswith('Storage::get_earliest_matched_blocks') for o in bdu.origins(t.args[1], stop_at_calls=False)) for _, t in rm)
+    ctx.ob('C04.r6', BP.name, 'a matched block reported missing discards its record and rewinds the filter progress before it (under the matched-blocks lock, rewind first)',
+           okm, removes=len(rm), rewinds=len(rw),
+           failing_history=None if okm else 'record (16, 9, [A20]) kept across a fork at 19: every GetBlocksProof for A20 is answered `missing`, the answer is ignored for '
+           'matched blocks, the proof is requested again for ever and no later range is started (also after a restart)')
     census_fns.run(ctx, 'C04')
 
 
@@ -187,8 +248,75 @@ def stale_filter_hashes(ctx):
             good = all(gf.check_sink(b, 'true', bb, unconditional=False, removed=set(clears))[0] for bb, s in succ_ok)
             if good:
                 ok = True
+    if not ok:
+        # the decision may be a flag that is `true` on the branch where reorg headers are present and something else (a further
+        # reason to drop the hashes) otherwise: `let has_reorg = !reorg.is_empty() || <other test>; ... if has_reorg { clear }`
+        ok = _flag_true_when_nonempty(P, U, cfg, clears)
     ctx.ob('C04.r4', U.name, 'latest block filter hashes are dropped when the new prove state has reorg headers', ok, at=recv[0][1].span,
            clear_calls=len(clears), unconditional=uncond)
+    # (F60) ... and when the peer switched to a fork that was proved WITHOUT reorg headers: visible as a new last header that
+    # replaces the block proved before (same number, other hash)
+    cl = P.closures_of(U)
+    cmpf = [c for c in cl if any(k.endswith('Byte32 as PartialEq>::ne') or k.endswith('Byte32 as PartialEq>::eq') for _, k, _ in P.call_keys(c))
+            and any(k.endswith('HeaderView::number') for _, k, _ in P.call_keys(c))]
+    src = any(k.endswith('ProveState::get_last_headers') for c in [U] + cl for _, k, _ in P.call_keys(c)) and \
+        any(k.endswith('PeerState::get_prove_state') for c in [U] + cl for _, k, _ in P.call_keys(c))
+    ctx.ob('C04.r4', U.name, 'the hashes are also dropped when the new last headers replace the previously proved block (fork without reorg headers)',
+           uncond or (bool(cmpf) and src),
+           failing_history=None if (uncond or (cmpf and src)) else 'tip A24 proved, latest filter hashes known up to A24; fork at 22 proved without reorg headers: the hashes of A23, A24 stay '
+           'the expected ones, the filters of B23.. are rejected as unexpected and nothing asks for those heights again')
+
+
+def _flag_true_when_nonempty(P, U, cfg, clears):
+    def src_local(blk, name):
+        """follow `x = move/copy y` inside the block backwards"""
+        cur = name
+        for st in reversed(blk.stmts):
+            if st.kind == 'assign' and st.lhs.strip() == cur:
+                m = re.fullmatch(r'(?:move |copy )?(_\d+)', st.rhs.strip())
+                if m:
+                    cur = m.group(1)
+        return cur
+    # switch that decides the clear
+    flag = None
+    for bid, blk in U.blocks.items():
+        if blk.cleanup or blk.term.kind != 'switchInt' or len(blk.term.targets) != 2:
+            continue
+        r = [cfg.reachable_from([t]) for t in blk.term.targets]
+        inc = [any(c in x for c in clears) for x in r]
+        if inc.count(True) == 1:
+            d = blk.term.discr.replace('move ', '').replace('copy ', '').strip()
+            flag = src_local(blk, d)
+    if flag is None:
+        return False
+    # the non-empty edge of the is_empty test
+    nonempty = None
+    for b, t in P.call_sites(U, lambda k, tt: k.endswith('Vec::is_empty')):
+        d = t.dest.strip()
+        for bid, blk in U.blocks.items():
+            if blk.cleanup or blk.term.kind != 'switchInt':
+                continue
+            disc = blk.term.discr.replace('move ', '').replace('copy ', '').strip()
+            neg = False
+            for st in blk.stmts:
+                if st.kind == 'assign' and st.lhs.strip() == disc and re.fullmatch(r'Not\((?:move |copy )?%s\)' % re.escape(d), st.rhs.strip()):
+                    neg = True
+                    disc = d
+            if disc != d:
+                continue
+            for c, tgt in blk.term.cases:
+                truthy = (c == 'otherwise') or (isinstance(c, int) and c != 0)
+                is_empty_true = truthy != neg
+                if not is_empty_true:
+                    nonempty = (bid, tgt)
+    if nonempty is None:
+        return False
+    bsw, tgt = nonempty
+    other = [x for x in U.blocks[bsw].term.targets if x != tgt]
+    excl = cfg.reachable_from([tgt]) - (cfg.reachable_from(other) if other else set())
+    defs = [(bid, st) for bid, blk in U.blocks.items() if not blk.cleanup for st in blk.stmts if st.kind == 'assign' and st.lhs.strip() == flag]
+    in_excl = [st for bid, st in defs if bid in excl]
+    return bool(in_excl) and all(st.rhs.strip() == 'const true' for st in in_excl)
 
 
 def fork_decision(ctx, F):
@@ -198,7 +326,26 @@ def fork_decision(ctx, F):
     P = ctx.prog
     locs = [('_%s' % l) for l, ty in F.locals.items() if re.fullmatch(r'(std::option::)?Option<(std::option::)?Option<u64>>', str(ty).strip())]
     if not locs:
-        return None
+        # earlier shape: the result of the find_map over the reorg headers (Option<BlockNumber>) is the decision itself
+        fms = [(b, t) for b, k, t in P.call_keys(F) if k.endswith('Iterator>::find_map') and t.dest]
+        if not fms:
+            return None
+        edges = set()
+        outer = []
+        dl = fms[0][1].dest.strip()
+        for bid, blk in F.blocks.items():
+            if blk.cleanup or blk.term.kind != 'switchInt':
+                continue
+            d = blk.term.discr.replace('move ', '').replace('copy ', '').strip()
+            for st in blk.stmts:
+                if st.kind == 'assign' and st.lhs.strip() == d and re.fullmatch(r'discriminant\(%s\)' % re.escape(dl), st.rhs.strip()):
+                    outer.append(bid)
+                    for c, tgt in blk.term.cases:
+                        if c == 1:
+                            edges.add((bid, tgt))
+        if not outer:
+            return None
+        return {'some_some_edges': edges, 'outer_blocks': sorted(outer), 'inner_blocks': sorted(outer), 'is_some': [], 'legacy': fms}
     lre = '|'.join(re.escape(x) for x in locs)
     outer, inner = {}, {}
     for bid, blk in F.blocks.items():
@@ -244,3 +391,5 @@ def tip_after_rollback(ctx, rule):
     avoid = cfg.reachable_from([tgt for _, tgt in dec['some_some_edges']], removed_nodes={b for b, t in rbs})
     for b, sp, lbl in uls:
         ctx.ob(rule, F.name, 'with a fork point found, every path to update_last_state passes rollback_to_block', b not in avoid, at=sp)
+        later = cfg.reachable_from(cfg.succ[b])
+        ctx.ob(rule, F.name, 'no rollback_to_block follows the tip write (the rollback is durable first)', not any(rb in later for rb, _ in rbs), at=sp)
